@@ -183,7 +183,7 @@ class Eval:
 
     def ev_bin(self, t):
         a, b = self.ev(t[2]), self.ev(t[3])
-        return {'+': lambda: a + b, '-': lambda: a - b, '*': lambda: a * b, '|': lambda: a | b}[t[1]]()
+        return {'+': lambda: a + b, '-': lambda: a - b, '*': lambda: a * b, '|': lambda: a | b, '&': lambda: a & b, '^': lambda: a ^ b}[t[1]]()
 
     def ev_struct(self, t):
         return V(t[1], **{k: self.ev(v) for k, v in t[2].items()})
